@@ -98,6 +98,16 @@ FAMILY = {'Conductivity': 'lin', 'Resistivity': 'lin',
 SIGN = {'Conductivity': 1, 'LgConductivity': 1, 'LnConductivity': 1,
         'Resistivity': -1, 'LgResistivity': -1, 'LnResistivity': -1}
 LG_LO, LG_HI = -8.0, 4.0          # the twelve decades of the quantifier
+# 'wide' cases: the twelve decades (maps: sixty) anywhere in 1e-30 ... 1e30
+# S/m (air at 1e12 ... 1e16 Ohm m is routine input); pure float64 formulas,
+# far from over-/underflow also after squaring and multiplying by mu0 V s.
+WIDE_LO, WIDE_HI = -30.0, 30.0
+# forms in which forward / backward receive their argument (emg3d itself
+# calls them with strided views (meshes.py get_min, _multiprocessing.layered),
+# numpy scalars (meshes.py m.forward(min(data)), simulations.py prop[ind]),
+# 0-d arrays (models.py _check_positive_finite of a scalar) and whatever
+# array the user hands to Model: C-ordered, read-only)
+AFORMS = ['F', 'F', 'C', 'view', 'readonly', 'np64', '0d']
 
 
 def ref_dsdx(mapping, x):
@@ -141,13 +151,48 @@ def maps_strategy():
                                  'ends']),
         'gkind': st.sampled_from(['normal', 'wide', 'zeros']),
         'seed': gen.SEED,
+        # --- added later (old replay specs lack them: spec.get defaults) ---
+        'aform': st.sampled_from(AFORMS),
+        'gorder': st.sampled_from(['F', 'C']),
+        'wide': st.sampled_from([False]*7 + [True]),
     })
 
 
 def _window(spec):
     span = float(spec['span'])
+    if spec.get('wide', False):
+        # sixty decades: the drawn span (<= 12) is stretched fivefold
+        span *= (WIDE_HI - WIDE_LO)/(LG_HI - LG_LO)
+        lo = WIDE_LO + float(spec['pos'])*(WIDE_HI - WIDE_LO - span)
+        return lo, lo + span
     lo = LG_LO + float(spec['pos'])*(LG_HI - LG_LO - span)
     return lo, lo + span
+
+
+def _as_form(aform, a):
+    """`a` (Fortran-ordered float64 array) in the input form `aform`
+    -> (object handed to emg3d, its owner (for views), reference values in
+    the shape of the input as float64 array)."""
+    if aform == 'C':
+        v = np.ascontiguousarray(a)
+        if v is a or np.shares_memory(v, a):
+            v = a.copy(order='C')
+        return v, None, a.copy()
+    if aform == 'view':
+        # every second entry along the first axis of a larger array
+        big = np.full((2*a.shape[0],) + a.shape[1:], 7.25, order='F')
+        big[::2] = a
+        return big[::2], big, a.copy()
+    if aform == 'readonly':
+        v = a.copy(order='F')
+        v.flags.writeable = False
+        return v, None, a.copy()
+    if aform == 'np64':
+        return np.float64(a.ravel('F')[0]), None, np.array(a.ravel('F')[0])
+    if aform == '0d':
+        v = np.array(a.ravel('F')[0])
+        return v, None, v.copy()
+    return a.copy(order='F'), None, a.copy()
 
 
 def _relerr(got, ref):
@@ -177,7 +222,22 @@ def case_maps(spec, rec):
     sig = np.asfortranarray((10.0**lg).reshape(shape, order='F'))
     sig0 = sig.copy()
 
+    aform = spec.get('aform', 'F')
+    wide = bool(spec.get('wide', False))
+    gorder = spec.get('gorder', 'F')
+
     def chk_shape(name, out, like):
+        """-> float64 array of the result; `like`: the reference array in the
+        shape of the input.  Array in -> float64 array of that shape out;
+        scalar / 0-d in -> anything real of shape () (numpy scalar, 0-d)."""
+        if like.ndim == 0:
+            if np.shape(out) != () or isinstance(out, (bool, np.bool_)) or \
+                    not isinstance(out, (float, np.floating, np.ndarray)) or \
+                    np.asarray(out).dtype.kind != 'f':
+                raise Violation(f"{name}_shape:{m}",
+                                f"{name} returned {type(out).__name__} "
+                                f"{out!r} for a scalar ({aform}) input")
+            return np.asarray(out, dtype=np.float64)
         if not isinstance(out, np.ndarray) or out.shape != like.shape:
             raise Violation(f"{name}_shape:{m}",
                             f"{name} returned {type(out).__name__} of shape "
@@ -185,53 +245,73 @@ def case_maps(spec, rec):
                             f"{like.shape}")
         if out.dtype != np.float64:
             raise Violation(f"{name}_dtype:{m}", f"{out.dtype}")
+        return out
+
+    def untouched(inp, owner, before, obefore):
+        if not np.array_equal(np.asarray(inp), before):
+            return False
+        return owner is None or np.array_equal(owner, obefore)
+
+    def give(a):
+        inp, owner, like = _as_form(aform, a)
+        return inp, owner, like, (None if owner is None else owner.copy())
 
     with warnings.catch_warnings():
         warnings.simplefilter('ignore')
         # ---- forward = documented expression -----------------------------
-        x = emap.forward(sig)
-        chk_shape('forward', x, sig)
-        if not np.array_equal(sig, sig0):
-            raise Violation(f"forward_modifies_input:{m}", "")
+        s_in, s_own, s_like, s_own0 = give(sig0)
+        x = chk_shape('forward', emap.forward(s_in), s_like)
+        if not untouched(s_in, s_own, s_like, s_own0):
+            raise Violation(f"forward_modifies_input:{m}", f"input {aform}")
+        x_like = gen.map_forward(m, s_like)
         x_ref = gen.map_forward(m, sig0)
-        tolx = 1e-12*x_scale(m, x_ref)
-        if not np.all(np.abs(x - x_ref) <= tolx):
-            k = int(np.argmax(np.abs(x-x_ref)/tolx))
+        tolx = 1e-12*x_scale(m, x_like)
+        if not np.all(np.abs(x - x_like) <= tolx):
+            k = int(np.argmax(np.abs(x-x_like)/tolx))
             raise Violation(
                 f"forward_formula:{m}",
-                f"forward({sig0.ravel('F')[k]!r}) = {x.ravel('F')[k]!r}, "
-                f"documented {x_ref.ravel('F')[k]!r}")
+                f"forward({s_like.ravel('F')[k]!r}) = {x.ravel('F')[k]!r}, "
+                f"documented {x_like.ravel('F')[k]!r} (input {aform})")
         # ---- backward = documented expression ----------------------------
-        xin = np.asfortranarray(x_ref.copy())
-        b = emap.backward(xin)
-        chk_shape('backward', b, xin)
-        if not np.array_equal(xin, x_ref):
-            raise Violation(f"backward_modifies_input:{m}", "")
-        b_ref = gen.map_backward(m, x_ref)
+        xin, x_own, xl, x_own0 = give(np.asfortranarray(x_ref.copy()))
+        b = chk_shape('backward', emap.backward(xin), xl)
+        if not untouched(xin, x_own, xl, x_own0):
+            raise Violation(f"backward_modifies_input:{m}", f"input {aform}")
+        b_ref = gen.map_backward(m, xl)
         if not np.all(np.abs(b - b_ref) <= 1e-12*np.abs(b_ref)):
             k = int(np.argmax(np.abs(b-b_ref)/np.abs(b_ref)))
             raise Violation(
                 f"backward_formula:{m}",
-                f"backward({x_ref.ravel('F')[k]!r}) = {b.ravel('F')[k]!r}, "
-                f"documented {b_ref.ravel('F')[k]!r}")
+                f"backward({xl.ravel('F')[k]!r}) = {b.ravel('F')[k]!r}, "
+                f"documented {b_ref.ravel('F')[k]!r} (input {aform})")
         # ---- inverse pair ------------------------------------------------
-        bf = emap.backward(emap.forward(sig))
-        if not np.all(np.abs(bf - sig0) <= 1e-12*sig0):
-            k = int(np.argmax(np.abs(bf-sig0)/sig0))
+        bf = np.asarray(emap.backward(emap.forward(s_in)), dtype=float)
+        if bf.shape != s_like.shape or \
+                not np.all(np.abs(bf - s_like) <= 1e-12*s_like):
+            k = int(np.argmax(np.abs(bf-s_like)/s_like)) \
+                if bf.shape == s_like.shape else 0
             raise Violation(
                 f"inverse_pair:backward_forward:{m}",
-                f"backward(forward({sig0.ravel('F')[k]!r})) = "
-                f"{bf.ravel('F')[k]!r} (rel {_relerr(bf, sig0):.2e})")
-        fb = emap.forward(emap.backward(xin))
-        if not np.all(np.abs(fb - x_ref) <= tolx):
-            k = int(np.argmax(np.abs(fb-x_ref)/tolx))
+                f"backward(forward({s_like.ravel('F')[k]!r})) = "
+                f"{bf.ravel('F')[k]!r} (input {aform})")
+        fb = np.asarray(emap.forward(emap.backward(xin)), dtype=float)
+        if fb.shape != xl.shape or not np.all(np.abs(fb - xl) <= tolx):
+            k = int(np.argmax(np.abs(fb-xl)/tolx)) \
+                if fb.shape == xl.shape else 0
             raise Violation(
                 f"inverse_pair:forward_backward:{m}",
-                f"forward(backward({x_ref.ravel('F')[k]!r})) = "
-                f"{fb.ravel('F')[k]!r}")
+                f"forward(backward({xl.ravel('F')[k]!r})) = "
+                f"{fb.ravel('F')[k]!r} (input {aform})")
+        if not untouched(s_in, s_own, s_like, s_own0) or \
+                not untouched(xin, x_own, xl, x_own0):
+            raise Violation(f"inverse_pair_modifies_input:{m}",
+                            f"input {aform}")
 
         # ---- derivative_chain, called like simulations.py does ------------
-        G = np.zeros((3, *shape), order='F')
+        # 'F': slice of a Fortran-ordered (3, ...) array (strided; gradient);
+        # 'C': slice of a C-ordered copy (contiguous; what jvec hands over:
+        # `vector[None, ...].copy()`), `mapped` Fortran-ordered in both
+        G = np.zeros((3, *shape), order=gorder)
         if spec['gkind'] == 'normal':
             G[...] = rng.standard_normal(G.shape)
         elif spec['gkind'] == 'wide':
@@ -266,6 +346,9 @@ def case_maps(spec, rec):
         cs = 'complex_step'
         try:
             h = 1e-20*np.maximum(1.0, np.abs(x_ref))
+            if wide and fam == 'lin':
+                # |x| may be far below 1e-20: step relative to x
+                h = 1e-20*np.abs(x_ref)
             bc = emap.backward(x_ref.astype(complex) + 1j*h)
             num = np.imag(bc)/h
             if not np.iscomplexobj(bc) or not np.all(np.isfinite(num)):
@@ -298,7 +381,8 @@ def case_maps(spec, rec):
                 f"{expf.ravel('F')[j]!r}")
 
     rec.cls(f"map={m}", f"dist={spec['dist']}", f"gkind={spec['gkind']}",
-            f"ndim={len(shape)}", cs,
+            f"ndim={len(shape)}", cs, f"aform={aform}", f"gorder={gorder}",
+            f"wide={wide}", f"wide={wide}:fam={fam}",
             'span=12' if spec['span'] == 12.0 else
             ('span>=6' if spec['span'] >= 6 else 'span<6'))
     if m != 'Conductivity' and spec['span'] >= 6 and n >= 2:
